@@ -109,6 +109,15 @@ CLAIMS = {
          "ranking) pairs over 3/4 elements and equals the 'respects' relation on well-formed pairs.",
          "Trusted: Coq kernel + vm_compute; model; harness; igraph's SCC order taken as given.",
          "DESIGN.md section 4, C07"),
+ "C05": ("Coq-verified brute-force optimum + exchange lemma; every exact run judged in Coq against it",
+         "PARTIAL proof. The solver's branch-and-bound is outside the model and CPLEX is not installed. Machine-checked: opt is the minimum "
+         "generalized Kemeny score over all rankings with ties (lower bound, attained), optimal <-> score = opt, score of the definitional "
+         "table = kemeny_spec, soundness of the SCC decomposition and of the all-tied shortcut. Per run, judged in Coq: every consensus "
+         "returned by ExactAlgorithm(optimize on/off) with CPLEX absent (free-solver fallback) and by ExactAlgorithmPulp (one / all) is "
+         "well-formed, has score = opt, reports that score and is flagged optimal (universes <= 6/7). Not covered in this version: the "
+         "CPLEX model driven through a stand-in module, the 'all minimisers' set, the ILP formulation theorems.",
+         "Trusted: Coq kernel + vm_compute; model; harness; CBC through PuLP judged per run only.",
+         "DESIGN.md section 4, C05"),
 }
 NOT_YET = "check not built yet in this phase (planned: DESIGN.md section 4); no claim is made"
 
